@@ -255,6 +255,16 @@ func c20Op(st *c20State, op string, inputs [][]byte) (res int) {
 			}
 		}
 		return fileDigest(st.f)
+	case "B": // a mutating accessor of a decoded box: append brands to ftyp (and to the styp of every segment)
+		if st.f.Ftyp != nil {
+			st.f.Ftyp.AddCompatibleBrands([]string{"aaaa", "bbbb", "cccc"})
+		}
+		for _, seg := range st.f.Segments {
+			if seg.Styp != nil {
+				seg.Styp.AddCompatibleBrands([]string{"dddd"})
+			}
+		}
+		return fileDigest(st.f)
 	case "K": // encrypt with key material taken from the shared buffer (8-byte IV with spare capacity)
 		if st.f.Init == nil {
 			return -2
